@@ -111,18 +111,19 @@ func vestingObligations(w *World, r *Report, tm *Terms) {
 		fn := s.fn
 		fr := tm.Root(fn)
 		name := fnName(fn)
-		// the sweep into the vesting escrow in the same function
+		// the sweep into the vesting escrow by the same operation (the function that fills the queue, or — when that is a
+		// helper — the operation it belongs to)
 		var total *Term
-		for _, b := range fn.Blocks {
-			for _, in := range b.Instrs {
+		tm.walkFrom(tm.Root(operationOf(w, fn)), func(sfr *Frame, in ssa.Instruction) {
+			{
 				e := w.EffectOf(in)
 				if e == nil || e.Kind != EffTransfer || e.Method != "SendCoins" {
-					continue
+					return
 				}
 				a := in.(ssa.CallInstruction).Common().Args
-				from, to, amt := tm.OperandAt(fr, in, a[1]), tm.OperandAt(fr, in, a[2]), tm.OperandAt(fr, in, a[3])
+				from, to, amt := tm.OperandAt(sfr, in, a[1]), tm.OperandAt(sfr, in, a[2]), tm.OperandAt(sfr, in, a[3])
 				if !to.Any(func(t *Term) bool { return isField(t, "VestingReserveAddress") }) {
-					continue
+					return
 				}
 				ok, why, denom := drainOK(from, amt)
 				payOK := from.Any(func(t *Term) bool { return isField(t, "PayingReserveAddress") })
@@ -138,7 +139,7 @@ func vestingObligations(w *World, r *Report, tm *Terms) {
 					return total == nil
 				})
 			}
-		}
+		})
 		if total == nil {
 			r.Fail("VEST-SHARE", name+":sweep", w.instrPos(s.in), "the instalments are created together with the sweep into the vesting escrow", "no transfer into the vesting escrow in "+name)
 			continue
